@@ -77,6 +77,12 @@ def field(base, name):
             return kids(base)[int(name)]
         except (ValueError, IndexError):
             return mk("field", (name,), (base,))
+    if t in ("array", "vec") and name.startswith("[") and name[1:-1].isdigit():
+        # constant index into a list whose elements are all known
+        i = int(name[1:-1])
+        if i < len(kids(base)):
+            return kids(base)[i]
+        return mk("field", (name,), (base,))
     if t == "rec":
         names = payload(base)
         if name in names:
